@@ -412,6 +412,16 @@ impl<'p> Interp<'p> {
     fn stmt(&mut self, env: &mut Env, s: &S) -> Result<Flow, Stop> {
         self.tick()?;
         match s {
+            S::Assign(LV::Var(target), E::Var(source))
+                if matches!(env.get(source), Some(Val::Arr { .. } | Val::Struct(_)))
+                    && std::mem::discriminant(env.get(source).unwrap())
+                        == env.get(target).map(std::mem::discriminant).unwrap_or(std::mem::discriminant(&Val::S(V::B(false)))) =>
+            {
+                // whole-aggregate assignment copies the value
+                let v = env.get(source).cloned().unwrap();
+                env.insert(target.clone(), v);
+                Ok(Flow::Next)
+            }
             S::Assign(l, e) => {
                 let t = self.lv_type(env, l)?;
                 let v = self.eval(env, e, Some(t))?;
